@@ -2,7 +2,13 @@
 package c02
 
 import (
+	"fmt"
+	"go/types"
+
+	"golang.org/x/tools/go/ssa"
+
 	"polycheck/eng"
+	"polycheck/ssau"
 	"polycheck/ob"
 	"polycheck/props"
 	mc "polycheck/props/meshcommon"
@@ -133,6 +139,7 @@ func run(c *props.Ctx) {
 	c.R.Floor("IDX-1", 40)
 	c.R.Floor("IDX-2", 6)
 	c.R.Floor("IDX-3", 20)
+	remapAndFill(c, fns)
 	nf := mc.ReportFamilies(c, fns, bad)
 	c.R.Extra["family_rebuilding_functions"] = nf
 	c.R.Floor("FAM-1", 5)
@@ -153,5 +160,52 @@ func run(c *props.Ctx) {
 			got = ob.Violation
 		}
 		c.R.Control("IDX", "control:verifControlIdxGood", "modeling/meshops/zz_verif_control_c02.go", got, ob.Holds, "")
+	}
+}
+
+func remapAndFill(c *props.Ctx, fns []*ssa.Function) {
+	p := c.P
+	isIdx := func(f *types.Var) bool {
+		return f != nil && f.Pkg() != nil && f.Pkg().Path() == mc.ModelingPath && f.Name() == "indices"
+	}
+	per := map[string]int{}
+	for _, r := range eng.Remaps(fns, mc.ModelingPath, isIdx) {
+		if p.IsControl(r.Fn.Pos()) {
+			continue
+		}
+		k := p.FuncName(r.Fn) + "→remap"
+		per[k]++
+		construct := fmt.Sprintf("%s#%d", k, per[k])
+		if r.OK {
+			c.R.Hold("REMAP-1", construct, p.Pos(ssau.PosOf(r.Store)), r.Detail)
+		} else {
+			c.R.Violate("REMAP-1", construct, p.Pos(ssau.PosOf(r.Handoff)), r.Detail)
+		}
+	}
+	c.R.Floor("REMAP-1", 1)
+	helper := p.Func("modeling", "appendData")
+	if helper == nil {
+		c.R.Note("modeling.appendData not present: FILL-1 / PAIR-2 have no instance")
+		return
+	}
+	var callers []*ssa.Function
+	for _, f := range fns {
+		if f.Pkg != nil && f.Pkg.Pkg.Path() == mc.ModelingPath {
+			callers = append(callers, f)
+		}
+	}
+	perF := map[string]int{}
+	for _, s := range eng.FillRules(helper, callers, mc.ModelingPath) {
+		if p.IsControl(s.Fn.Pos()) {
+			continue
+		}
+		k := p.FuncName(s.Fn) + "→" + s.Rule
+		perF[k]++
+		construct := fmt.Sprintf("%s#%d", k, perF[k])
+		if s.OK {
+			c.R.Hold(s.Rule, construct, p.Pos(ssau.PosOf(s.At)), s.Detail)
+		} else {
+			c.R.Violate(s.Rule, construct, p.Pos(ssau.PosOf(s.At)), s.Detail)
+		}
 	}
 }
